@@ -14,14 +14,24 @@ from common import Run, model
 import bookgen, bookrun
 import parsegen as G
 
-RULE = ('random acyclic workbooks x random input node lists (constant cells, formula cells, a range, a reference-valued '
+RULE = ('random acyclic workbooks x random input node lists (constant cells, formula cells, referenced unpopulated cells - listed as #EMPTY in three dictionaries of four, unlisted in the fourth -, a range, a reference-valued '
         'name) x output lists x 3 argument tuples each over numbers/text/logicals/errors/blank; compiled single formulas '
         'over 1-4 references x argument tuples, compared with the formula with literals written in. Non-trivial = an '
         'output depends on an input; distinct = distinct (workbook, inputs, outputs, arguments).')
 
 
+def unlisted_blank_input(case):
+    """known finding compile-unlisted-blank-input: one of the inputs is an unpopulated cell that is not a node of the
+    model (ranges read it from the solution), and the compiled function differs from the full calculation"""
+    return bool(case.get('inputs_that_are_no_nodes')) and bool(case.get('equals_calculation_without_those_inputs')) and \
+        'a full calculation with the same inputs gives' in case.get('what', '')
+
+
+SIGNATURES = {'unlisted_blank_input': unlisted_blank_input}
+
+
 def new_run():
-    return Run('C08', RULE)
+    return Run('C08', RULE, SIGNATURES)
 
 
 def cells_of_ref(ref):
@@ -46,7 +56,8 @@ def check(run):
     req, pend = [], []
     for k in range(n):
         wb = bookgen.generate(rnd, n_books=rnd.choice([1, 1, 2]))
-        d = wb.to_dict(explicit_blanks=True)
+        listed = k % 4 != 3            # every fourth dictionary does not list the referenced unpopulated cells
+        d = wb.to_dict(explicit_blanks=listed)
         case = {'workbook': {k_: (str(v) if isinstance(v, bookgen.Err) else v) for k_, v in d.items()}}
         try:
             m = bookrun.ExcelModel().from_dict(d)
@@ -61,12 +72,15 @@ def check(run):
         ins = [('cell', a) for a in rnd.sample(consts, min(len(consts), rnd.randint(1, 3)))]
         if rnd.random() < 0.3:
             ins.append(('cell', rnd.choice(forms)))
+        blanks = sorted(wb.referenced_blanks())
+        if blanks and (not listed or rnd.random() < 0.4):
+            ins.append(('cell', rnd.choice(blanks)))           # an unpopulated cell that formulas refer to
         outs = [a for a in rnd.sample(forms, min(len(forms), rnd.randint(1, 3))) if ('cell', a) not in ins]
         if not outs:
             continue
         in_keys = [wb.key(*a) for _, a in ins]
         out_keys = [wb.key(*a) for a in outs]
-        case.update(inputs=in_keys, outputs=out_keys)
+        case.update(inputs=in_keys, outputs=out_keys, inputs_that_are_no_nodes=[x for x in in_keys if x not in m.dsp.nodes])
         try:
             f = m.compile(inputs=in_keys, outputs=out_keys)
         except Exception as ex:
@@ -95,6 +109,13 @@ def check(run):
                 continue
             if got != exp:
                 j = [i for i in range(len(exp)) if got[i] != exp[i]][0]
+                if case['inputs_that_are_no_nodes']:
+                    # is the difference exactly that the compiled function ignores the inputs that are no nodes of the model?
+                    try:
+                        sol2 = m.calculate(inputs={k_: v_ for k_, v_ in zip(in_keys, iargs) if k_ in m.dsp.nodes}, outputs=out_keys)
+                        c2['equals_calculation_without_those_inputs'] = [wires(sol2[o]) for o in out_keys] == got
+                    except Exception:
+                        c2['equals_calculation_without_those_inputs'] = False
                 run.violation('compiled function returns %s for %s, a full calculation with the same inputs gives %s' % (
                     [[bookrun.show(v) for v in r] for r in got[j]], out_keys[j], [[bookrun.show(v) for v in r] for r in exp[j]]), c2)
             ov = [a + (v,) for (_, a), v in zip(ins, args)]
@@ -137,6 +158,13 @@ def check(run):
                 continue
             if got != exp:
                 j = [i for i in range(len(exp)) if got[i] != exp[i]][0]
+                if case['inputs_that_are_no_nodes']:
+                    # is the difference exactly that the compiled function ignores the inputs that are no nodes of the model?
+                    try:
+                        sol2 = m.calculate(inputs={k_: v_ for k_, v_ in zip(in_keys, iargs) if k_ in m.dsp.nodes}, outputs=out_keys)
+                        c2['equals_calculation_without_those_inputs'] = [wires(sol2[o]) for o in out_keys] == got
+                    except Exception:
+                        c2['equals_calculation_without_those_inputs'] = False
                 run.violation('compiled function returns %s for %s, a full calculation with the same inputs gives %s' % (
                     [[bookrun.show(v) for v in r] for r in got[j]], out_keys[j], [[bookrun.show(v) for v in r] for r in exp[j]]), c2)
             ov = [(0, rr[1] + i, 1, vals[i][0]) for i in range(len(vals))] + ([(0, 1, 4, iargs[1])] if len(in_keys) > 1 else [])
@@ -218,6 +246,16 @@ def check(run):
             if mv != iv:
                 run.disagree('output %s: model %s, compiled/calculated %s' % (wb.key(*a), bookrun.show(mv), bookrun.show(iv)), case)
                 break
+    # the exact witness of known finding compile-unlisted-blank-input
+    P = "'[b.xlsx]S'!"
+    try:
+        mw = bookrun.ExcelModel().from_dict({P + 'A1': 1, P + 'A2': 2, P + 'A3': 3, P + 'B1': '=SUM(%sA1:A10)' % P})
+        full = wires(mw.calculate(inputs={P + 'A7': 5}, outputs=[P + 'B1'])[P + 'B1'])
+        comp = wires(mw.compile(inputs=[P + 'A7'], outputs=[P + 'B1'])(5))
+    except Exception as ex:
+        full, comp = 'raised', type(ex).__name__
+    run.replay_witness('compile-unlisted-blank-input', full != comp, {'witness': 'from_dict({A1:1,A2:2,A3:3,B1:=SUM(A1:A10)}): compile([A7],[B1])(5) vs calculate({A7:5})',
+                                                                       'compiled': comp, 'calculated': full})
     run.extra['model_requests'] = len(req)
     return None
 
